@@ -11,4 +11,5 @@ CONSTANTS
   MaxMsgs = 4
   Depth = 7
   ProbesLast = TRUE
+  Extras = {}
 INVARIANT Emit
